@@ -26,11 +26,29 @@ FILES = {"argparse_function": "/p/argparse.py", "class": "/p/classes.py", "funct
 NAMES = {"argparse_function": "set_cli_args", "class": "ConfigClass"}
 PRE = ("missing", "empty", "absent", "stale", "agreeing", "stale_extra")
 
-IRS = [
+class _Pool(list):
+    """the three hand-picked descriptions, and - from index 100 on - the generated shapes of lib/grid.py (GRID_IDS)"""
+
+    def __getitem__(self, i):
+        if isinstance(i, int) and i >= 100:
+            return lambda: mk_ir(GRID_IDS[i - 100])
+        return list.__getitem__(self, i)
+
+
+IRS = _Pool([
     lambda: mk_ir("p2_both_d", p="the a", d=3),
     lambda: mk_ir("p3_mixed", p="the a", d=-2),
     lambda: mk_ir("p1_ret_d", p="the a", d=2),
-]
+])
+
+
+def _grid_ids():
+    from lib import grid
+
+    return [r for n, r in enumerate(grid.IDS) if r.startswith(("g1_", "g4_", "g5_")) or (r.startswith("g3_") and n % 7 == 0) or (r.startswith("g2_") and n % 23 == 0)]
+
+
+GRID_IDS = _grid_ids()
 STALE = lambda: mk_ir("p1_str_s", p="old text", s="old")  # noqa: E731
 
 
